@@ -197,6 +197,7 @@ class TypeDef:
         self.lifetime = False
         self.params = []              # [(parameter name, concrete Rust type)] of a generic definition
         self.len_only = False         # only the length / bounded-sink checks run it (wire format not documented)
+        self.encode_only = False      # derives Encode + CborLen only (the Decode derive rejects the shape)
 
     def eff_enc(self, override=None):
         e = override or self.encoding or "array"
@@ -263,7 +264,7 @@ def emit_type(td):
         attrs.append("#[cbor(transparent)]")
     if td.index_only:
         attrs.append("#[cbor(index_only)]")
-    out.append("#[derive(Debug, minicbor::Encode, minicbor::Decode, minicbor::CborLen)]")
+    out.append("#[derive(Debug, minicbor::Encode, minicbor::CborLen)]" if td.encode_only else "#[derive(Debug, minicbor::Encode, minicbor::Decode, minicbor::CborLen)]")
     out += attrs
     if td.kind == "struct":
         decl = emit_fields_decl(td.fields, td.shape)
@@ -278,6 +279,8 @@ def emit_type(td):
                 va.append("#[cbor(tag(%d))]" % vtag)
             vs.append("%s %s %s," % (" ".join(va), vn, emit_fields_decl(vfields, vshape, pub="")))
         out.append("pub enum %s%s { %s }" % (td.name, dlt, " ".join(vs)))
+    if td.encode_only:
+        out.append("impl<'b, C> minicbor::Decode<'b, C> for %s { fn decode(_: &mut minicbor::Decoder<'b>, _: &mut C) -> Result<Self, minicbor::decode::Error> { Err(minicbor::decode::Error::message(\"encode-only type\")) } }" % td.name)
     # family
     out.append("pub struct %sFam; impl Fam for %sFam { const NAME: &'static str = \"%s\"; type T<'a> = %s%s; }" % (td.name, td.name, td.name, td.name, lt))
     # Case impl
@@ -341,7 +344,7 @@ def emit_type(td):
             vs.append("VariantSchema { index: %d, tag: %s, encoding: %s, unit: %s, fields: vec![%s] }" % (
                 vi, "Some(%d)" % vtag if vtag is not None and not td.index_only else "None", td.eff_enc(venc), "true" if vshape == "unit" else "false", ", ".join(emit_field_schema(f) for f in schema_fields(vfields))))
         kind = "Kind::Enum { index_only: %s, variants: vec![%s] }" % ("true" if td.index_only else "false", ", ".join(vs))
-    out.append("pub fn schema_%s() -> TypeSchema { TypeSchema { name: \"%s\", tag: %s, kind: %s, loose: %s } }" % (td.name, td.name, "Some(%d)" % td.tag if td.tag is not None else "None", kind, "true" if td.len_only else "false"))
+    out.append("pub fn schema_%s() -> TypeSchema { TypeSchema { name: \"%s\", tag: %s, kind: %s, loose: %s, encode_only: %s } }" % (td.name, td.name, "Some(%d)" % td.tag if td.tag is not None else "None", kind, "true" if td.len_only else "false", "true" if td.encode_only else "false"))
     return "\n".join(out)
 
 
@@ -610,6 +613,19 @@ def special_types():
     td.len_only = True
     td.variants = [("A", 0, "named", None, None, [Field("t", 0, TRI_WITH), Field("x", 1, opt(U8))]), ("B", 1, "tuple", "map", None, [Field("x", 0, U8), Field("t", 1, TRI_FNS)])]
     out.append(finish(td))
+    # shapes only the Encode / CborLen derives accept (the Decode derive rejects them): a
+    # transparent newtype with an additional skipped field in front of / behind the encoded one.
+    # What such a type writes is not documented; len() = bytes written holds regardless.
+    for name, shape, first in [("EncOnlySkipFirst", "tuple", True), ("EncOnlySkipLast", "tuple", False), ("EncOnlySkipNamed", "named", True)]:
+        td = TypeDef(name)
+        td.transparent = True
+        td.shape = shape
+        td.len_only = True
+        td.encode_only = True
+        sk = Field("cache", 0, U8, skip=True)
+        fl = Field("value", 0, STRING if name != "EncOnlySkipLast" else U64)
+        td.fields = [sk, fl] if first else [fl, sk]
+        out.append(finish(td))
     # Tagged<N, T> as a field type, also around nil-capable types and in front of present fields
     td = TypeDef("TaggedTy")
     td.fields = [Field("a", 0, tagged(7, opt(U8))), Field("b", 1, U8), Field("c", 2, tagged(24, opt(STRING))), Field("d", 3, tagged(1000, U16), tag=5), Field("e", 5, opt(tagged(9, I32)))]
@@ -1012,7 +1028,8 @@ def main():
         for t in vs + es + [ctl]:
             chain_names.add(t.name)
     value_calls = "\n".join("    go!(%sFam);" % td.name for td in all_types if not td.len_only and not td.name.endswith("Twin") and not (td.name in chain_names and td.name[-3:] == "Ctl"))
-    value_calls += "\n    if w.c07 || w.c13 || w.c09 {\n" + "\n".join("        go!(%sFam);" % td.name for td in all_types if td.len_only) + "\n    }"
+    value_calls += "\n    if w.c07 || w.c13 || w.c09 {\n" + "\n".join("        go!(%sFam);" % td.name for td in all_types if td.len_only and not td.encode_only) + "\n    }"
+    value_calls += "\n    if w.c07 || w.c13 {\n" + "\n".join("        go!(%sFam);" % td.name for td in all_types if td.encode_only) + "\n    }"
     twin_calls = "\n".join("    tw!(%sFam, %sFam);" % (a.name, b.name) for a, b in twins)
     pairs = []
     for vs, es, ctl in chains:
